@@ -319,6 +319,7 @@ class Session:
         self.on_turn = None  # optional callback(session, label, opname) at every turn point
         self.hold_depth = {}
         self.double_runs = []
+        self.record_inputs_at_start = False
 
     # -- logging
 
@@ -344,9 +345,22 @@ class Session:
             self.double_runs.append((label, self.running[label]["job"], job_i))
         self.running[label] = info
         self.hold_depth[label] = 0
+        inputs = None
+        if self.record_inputs_at_start and self.handler is not None:
+            # What the database says about the step's inputs at the moment its command starts.
+            async with self.handler.db:
+                inputs = [
+                    [row[0], row[1], bool(row[2]), bool(row[3])]
+                    for row in self.handler.db.execute(
+                        "SELECT node.label, file.state, node.detached, "
+                        "EXISTS (SELECT 1 FROM dynamic_dep WHERE dynamic_dep.i = dep.i) "
+                        "FROM dependency AS dep JOIN node ON node.i = dep.source "
+                        "JOIN file ON file.node = dep.source WHERE dep.sink = ?",
+                        (run.step.i,))
+                ]
         self.log(op="start", label=label, job=job_i, cwd=str(cwd),
                  running=sorted(self.running), env_root=env.get("ROOT"),
-                 env_here=env.get("HERE"), need=env.get("STEPUP_STEP_NEED"))
+                 env_here=env.get("HERE"), need=env.get("STEPUP_STEP_NEED"), inputs=inputs)
         returncode, stderr = 0, ""
         try:
             program, args = self._load_program(command, cwd)
